@@ -344,6 +344,7 @@ fn prepare_control(&self, control: Control, env: &mut Env) -> (r: (Ticket, Contr
         *final(env) == *old(env),
 //@ item Job::send_controls
 //@ header
+#[verifier::exec_allows_no_decreases_clause]
 pub fn send_controls<const N: usize>(&self, controls: [Control; N], priority: Priority, env: &mut Env) -> (r: Ticket)
     requires wf_tx(&self.control_queue),
     ensures
@@ -358,6 +359,7 @@ invariant
 //@ end
 //@ item Job::control
 //@ header
+#[verifier::exec_allows_no_decreases_clause]
 pub fn control(&self, control: Control, env: &mut Env) -> (r: Ticket)
     requires wf_tx(&self.control_queue),
     ensures
